@@ -31,7 +31,27 @@ pub fn mk_edge(e: &E) -> Arc<Edge<String, u32>> {
     Arc::new(Edge { u: e.u.clone(), v: e.v.clone(), attributes: e.attr, weight: e.weight() })
 }
 
+thread_local! {
+    /// edges handed to the library earlier in this run: a caller that re-adds an edge (a retried batch, a
+    /// template edge) passes the same Arc again
+    static ARCS: std::cell::RefCell<Vec<(E, Arc<Edge<String, u32>>)>> = const { std::cell::RefCell::new(Vec::new()) };
+}
+fn arc_of(e: &E) -> Arc<Edge<String, u32>> {
+    ARCS.with(|a| {
+        let mut a = a.borrow_mut();
+        if let Some((_, arc)) = a.iter().find(|(k, _)| k == e) {
+            return arc.clone();
+        }
+        let arc = mk_edge(e);
+        if a.len() < 4096 {
+            a.push((e.clone(), arc.clone()));
+        }
+        arc
+    })
+}
+
 pub fn new_graph(specs: Specs) -> G {
+    ARCS.with(|a| a.borrow_mut().clear());
     Graph::new(specs.to_real())
 }
 
@@ -50,9 +70,16 @@ pub fn apply(g: &mut G, op: &Op) -> Result<Out, Panicked> {
             g.add_nodes(ns.iter().map(mk_node).collect());
             Out::Ok
         }),
-        Op::AddEdge(e) => rt::call(label, OP_BUDGET, || out_of(&g.add_edge(mk_edge(e)))),
+        Op::AddEdge(e) => {
+            let arc = arc_of(e);
+            rt::call(label, OP_BUDGET, move || out_of(&g.add_edge(arc)))
+        }
         Op::AddEdgeTuple(u, v) => rt::call(label, OP_BUDGET, || out_of(&g.add_edge_tuple(u.clone(), v.clone()))),
-        Op::AddEdges(es) => rt::call(label, OP_BUDGET, || out_of(&g.add_edges(es.iter().map(mk_edge).collect()))),
+        Op::AddEdges(es) => {
+            // an edge value inserted before (in this batch or earlier in the run) is passed as the same Arc
+            let arcs: Vec<Arc<Edge<String, u32>>> = es.iter().map(arc_of).collect();
+            rt::call(label, OP_BUDGET, move || out_of(&g.add_edges(arcs)))
+        }
         Op::AddEdgeTuples(ps) => rt::call(label, OP_BUDGET, || out_of(&g.add_edge_tuples(ps.clone()))),
         Op::Restart(specs, ns, es) => {
             let r = rt::call(label, OP_BUDGET, || G::new_from_nodes_and_edges(ns.iter().map(mk_node).collect(), es.iter().map(mk_edge).collect(), specs.to_real()))?;
